@@ -706,7 +706,9 @@ static void ZSTDMT_compressionJob(void* jobDescription)
     if (dstBuff.start == NULL) {   /* streaming job : doesn't provide a dstBuffer */
         dstBuff = ZSTDMT_getBuffer(job->bufPool);
         if (dstBuff.start==NULL) JOB_ERROR(ERROR(memory_allocation));
+        ZSTD_PTHREAD_MUTEX_LOCK(&job->job_mutex);   /* ZSTDMT_sizeof_CCtx() may read it concurrently */
         job->dstBuff = dstBuff;   /* this value can be read in ZSTDMT_flush, when it copies the whole job */
+        ZSTD_pthread_mutex_unlock(&job->job_mutex);
     }
     if (jobParams.ldmParams.enableLdm == ZSTD_ps_enable && rawSeqStore.seq == NULL)
         JOB_ERROR(ERROR(memory_allocation));
@@ -1056,12 +1058,27 @@ size_t ZSTDMT_freeCCtx(ZSTDMT_CCtx* mtctx)
     return 0;
 }
 
+/* output buffers of the jobs compressed (or being compressed) but not flushed yet :
+ * they left the buffer pool and go back to it once flushed */
+static size_t ZSTDMT_sizeof_jobBuffers(ZSTDMT_CCtx* mtctx)
+{
+    size_t total = 0;
+    unsigned u;
+    for (u=0; u<=mtctx->jobIDMask; u++) {
+        ZSTD_pthread_mutex_lock(&mtctx->jobs[u].job_mutex);
+        total += mtctx->jobs[u].dstBuff.capacity;
+        ZSTD_pthread_mutex_unlock(&mtctx->jobs[u].job_mutex);
+    }
+    return total;
+}
+
 size_t ZSTDMT_sizeof_CCtx(ZSTDMT_CCtx* mtctx)
 {
     if (mtctx == NULL) return 0;   /* supports sizeof NULL */
     return sizeof(*mtctx)
             + POOL_sizeof(mtctx->factory)
             + ZSTDMT_sizeof_bufferPool(mtctx->bufPool)
+            + ZSTDMT_sizeof_jobBuffers(mtctx)
             + (mtctx->jobIDMask+1) * sizeof(ZSTDMT_jobDescription)
             + ZSTDMT_sizeof_CCtxPool(mtctx->cctxPool)
             + ZSTDMT_sizeof_seqPool(mtctx->seqPool)
